@@ -19,7 +19,7 @@ func init() {
 	ev.Register(&ev.Check{
 		ID:             "C06",
 		Level:          "exploration",
-		Rule:           "inputs: (i) every valid JSON text among ALL strings <= 5 (thorough 6) symbols over the 30-class alphabet; (ii) ALL JSON values with <= 4 (5) nodes over 10 scalar forms rendered with every placement of <= 2 (3) gaps from {space, tab, LF, CRLF} over all inter-token positions; (iii) all 2^8 object/array nestings of depth 8, flat containers of width 1..8, numbers ending at end of input, every single-character escape and every \\uXXXX escape with each hex digit from {0,9,a,F} in strings and keys. Oracle on the public NextLexeme stream: properly nested, terminated by io.EOF, spans inside the input, literal/key spans == reference token spans, container spans bracket to bracket, value rebuilt from events alone == reference parse; cross-scanner: schema scanner and (arrays of scalars) enum scanner via verif hooks yield the same (type, begin, end) sequence modulo new-line events. (iv) pairs of small documents read in turns through NextLexeme: in ALL merges of the two call sequences each document delivers the events it delivers alone. States/transitions = distinct (event-type stack) configurations of the replayed event automaton and steps between them. Non-trivial = distinct valid text with >= 2 events.",
+		Rule:           "inputs: (i) every valid JSON text among ALL strings <= 5 (thorough 6) symbols over the 30-class alphabet; (ii) ALL JSON values with <= 4 (5) nodes over 10 scalar forms rendered with every placement of <= 2 (3) gaps from {space, tab, LF, CRLF} over all inter-token positions; (iii) all 2^8 object/array nestings of depth 8, flat containers of width 1..8, numbers ending at end of input, every single-character escape and every \\uXXXX escape with each hex digit from {0,9,a,F} in strings and keys. Oracle on the public NextLexeme stream (of a fresh document, and of a document on which Len or Check ran before): properly nested, terminated by io.EOF, spans inside the input, literal/key spans == reference token spans, container spans bracket to bracket, value rebuilt from events alone == reference parse; cross-scanner: schema scanner and (arrays of scalars) enum scanner via verif hooks yield the same (type, begin, end) sequence modulo new-line events. (iv) pairs of small documents read in turns through NextLexeme: in ALL merges of the two call sequences each document delivers the events it delivers alone. States/transitions = distinct (event-type stack) configurations of the replayed event automaton and steps between them. Non-trivial = distinct valid text with >= 2 events.",
 		Run:            run,
 		Replay:         replay,
 		QuickBudget:    80 * time.Second,
@@ -37,13 +37,23 @@ type Event struct {
 	End   int
 }
 
-func jsonEvents(text string) (evs []Event, err error) {
+func jsonEvents(text string) (evs []Event, err error) { return jsonEventsAfter(text, 0) }
+
+// jsonEventsAfter: the stream of a document on which Len (prior=1) or Check
+// (prior=2) was called before - both rewind, the stream must be the same.
+func jsonEventsAfter(text string, prior int) (evs []Event, err error) {
 	defer func() {
 		if r := recover(); r != nil {
 			err = fmt.Errorf("PANIC: %v", r)
 		}
 	}()
 	d := json.New("d", text)
+	switch prior {
+	case 1:
+		_, _ = d.Len()
+	case 2:
+		_ = d.Check()
+	}
 	for i := 0; i < 10*len(text)+10; i++ {
 		lex, e := d.NextLexeme()
 		if e != nil {
@@ -261,6 +271,12 @@ func evalText(c *ev.Ctx, text string) (string, string) {
 	}
 	if d := crossCheck(text, evs); d != "" {
 		return "cross", fmt.Sprintf("JSON text %q: %s", text, d)
+	}
+	for prior, what := range map[int]string{1: "Len()", 2: "Check()"} {
+		evs2, err2 := jsonEventsAfter(text, prior)
+		if err2 != nil || fmt.Sprint(evs2) != fmt.Sprint(evs) {
+			return "after-" + what, fmt.Sprintf("JSON text %q: after %s on the same document NextLexeme delivers %d events (%v), a fresh document delivers %d", text, what, len(evs2), err2, len(evs))
+		}
 	}
 	return "", ""
 }
